@@ -6,6 +6,10 @@ mod edges;
 #[cfg(feature = "std")]
 mod exec;
 #[cfg(feature = "std")]
+mod pure;
+#[cfg(feature = "std")]
+mod pure2;
+#[cfg(feature = "std")]
 mod sut;
 
 #[global_allocator]
@@ -22,6 +26,8 @@ fn main() {
         "exec" => exec::run(&args[2], &args[3]),
         #[cfg(feature = "std")]
         "edges" => edges::run(&args[2..]),
+        #[cfg(feature = "std")]
+        "table" => pure::run(&args[2..]),
         m => {
             eprintln!("unknown mode {m}");
             std::process::exit(2);
